@@ -554,3 +554,7 @@ share("C01", "C01.R11", per_field_metadata_is_independent)  # metadata fidelity:
 from .c08 import unprefixed_attribute_values_stay_plain  # noqa: E402
 
 share("C01", "C01.R12", unprefixed_attribute_values_stay_plain)  # wildcard attribute values must come back as written
+
+from .c11 import single_wildcard_container  # noqa: E402
+
+share("C01", "C01.R13", single_wildcard_container)  # a nameless container written as its children must be read back as that container, not as its first child
